@@ -20,9 +20,12 @@
     repeats (GetChunkHashes, flattened) and [f_edges] the key set of the map
     GetPyramid returns (manifest nodes, file roots, intermediate chunks; may
     overlap the leaves: a one-chunk file's root is both).  Both traversals
-    read exactly the root and the edge chunks (mode ModeGetLookup: no effect on
-    the store) and fail with an error wrapping storage.ErrNotFound when one is
-    missing: [trav].  A root outside the catalogue stands for an address whose
+    read the root and the edge chunks, and first probe the root for being a
+    manifest by reading the whole content stored under it: for a manifest root
+    that is the root chunk itself, for a bare (non-manifest) file reference it
+    is every data chunk — [f_probe] lists those extra chunks.  Everything is
+    read in mode ModeGetLookup (no effect on the store); a missing chunk makes
+    the traversal fail with an error wrapping storage.ErrNotFound: [trav].  A root outside the catalogue stands for an address whose
     chunk is never stored.  Theorems quantify over every catalogue.
 
     REPAIRED CODE.  The model is of the code with proposed/C16/fix-delfile-unregistered-root.patch
@@ -40,7 +43,7 @@ Require Import Aurora.C11.Model.
 Local Open Scope N_scope.
 
 (** ** catalogue *)
-Record shape := { f_leaves : list addr; f_edges : list addr }.
+Record shape := { f_leaves : list addr; f_edges : list addr; f_probe : list addr }.
 Definition catalogue := list (addr * shape).
 Definition cat_get (cat : catalogue) (r : addr) : option shape := alookup cmp_bytes r cat.
 
@@ -95,7 +98,8 @@ Section Sys.
   Definition trav (s : state) (root : addr) : option shape :=
     match cat_get cat root with
     | None => None
-    | Some sh => if data_has s root && forallb (data_has s) (f_edges sh) then Some sh else None
+    | Some sh => if data_has s root && forallb (data_has s) (f_edges sh) && forallb (data_has s) (f_probe sh)
+                 then Some sh else None
     end.
 
   (** [updateChunkPyramid] guarded by the hashData test of [initChunkPyramid] / [getChunkSize],
